@@ -109,7 +109,12 @@ func checkC12(c *CheckCtx) error {
 	if err := c.runSeq(scs); err != nil {
 		return err
 	}
-	return c.randomFraming(c.pick(80, 1500), allAPIs, []string{"default", "ci", "update"}, 0.3, "r")
+	if err := c.randomFraming(c.pick(80, 1500), allAPIs, []string{"default", "ci", "update"}, 0.3, "r"); err != nil {
+		return err
+	}
+	// concurrent mixes through shared Configs: a Config written during a call is a data race
+	// (auxiliary, as in C06: below the abstraction of the specification)
+	return c.raceRun()
 }
 
 func checkC19(c *CheckCtx) error {
